@@ -1,6 +1,7 @@
 /- Line-protocol driver: one case per input line, one canonical answer line per case. -/
 import Dblib.Model.PacketQueueDriver
 import Dblib.Model.Isolation
+import Dblib.Model.Life
 import Dblib.Model.LoginRecord
 import Dblib.Model.LoginDriver
 import Dblib.Model.Codec.All
@@ -16,6 +17,7 @@ def handle (line : String) : String :=
   match words line with
   | "pq" :: args => PQ.run args
   | "iso" :: args => Isolation.run args
+  | "life" :: args => Life.run args
   | "lr" :: args => LoginRecord.run args
   | "login" :: args => Login.run args
   | "pkg" :: args => Codec.run args
